@@ -659,7 +659,8 @@ def ASM.setWriteOp (a : ASM) (g : GenStep) : ASM × AsmRes :=
     the connection open and the read-ahead buffer non-empty) -/
 def ASM.noOp (a : ASM) : Bool := !(a.handshaker || a.closer || a.reader || a.writer)
 
-/-- the `while self._read_ahead_pending(): self.reader = readAsync(16384); self._doReadOp()` loop -/
+/-- the drain loop of `_doReadOp`: after a completed read, `if not self._read_ahead_pending(): break;
+    self.reader = readAsync(16384); self.result = next(self.reader)` and deliver again -/
 def ASM.drainLoop (r : ASM × AsmRes) : List GenStep → ASM × AsmRes
   | [] => r
   | g :: rest =>
@@ -673,16 +674,30 @@ def ASM.drainLoop (r : ASM × AsmRes) : List GenStep → ASM × AsmRes
       else r
     | _ => r
 
-/-- inReadEvent including the read-ahead drain of its implicit-read branch; `pend` = what the
-    extra reads do (empty = nothing was read ahead) -/
+/-- `_doReadOp` with its drain loop: whenever a read completes (in whichever event), reads are
+    started again while `_read_ahead_pending()`; `pend` = what those extra reads do -/
+def ASM.doReadOpD (a : ASM) (g : GenStep) (pend : List GenStep) : ASM × AsmRes :=
+  ASM.drainLoop (a.doReadOp g) pend
+
+/-- inReadEvent (`pend` empty = nothing was read ahead) -/
 def ASM.inReadDrain (a : ASM) (g : GenStep) (pend : List GenStep) : ASM × AsmRes :=
   ASM.guard <|
     if !a.checkAssert then (a, .assertionError)
     else if a.handshaker then a.doHandshakeOp g
     else if a.closer then a.doCloseOp g
-    else if a.reader then a.doReadOp g
+    else if a.reader then a.doReadOpD g pend
     else if a.writer then a.doWriteOp g
-    else ASM.drainLoop (({ a with reader := true }).doReadOp g) pend
+    else ({ a with reader := true }).doReadOpD g pend
+
+/-- inWriteEvent (a read that had to write completes here) -/
+def ASM.inWriteDrain (a : ASM) (g : GenStep) (pend : List GenStep) : ASM × AsmRes :=
+  ASM.guard <|
+    if !a.checkAssert then (a, .assertionError)
+    else if a.handshaker then a.doHandshakeOp g
+    else if a.closer then a.doCloseOp g
+    else if a.reader then a.doReadOpD g pend
+    else if a.writer then a.doWriteOp g
+    else (a, .ok [.outWrite])
 
 inductive AsmOp where
   | inRead | inWrite | setHandshake | setClose | setWrite
